@@ -1,12 +1,12 @@
 (* C02 -- HTML auto-escaping is sound: unsafe data is escaped exactly once.
    Statements only; proofs in MJ.C02.Proofs.  Model: Lang/Interp.v run with esc = true (see C02/Spec.v
    for the map to utils.rs / output.rs / filters.rs / macro_object.rs and for safe_free, good_binds). *)
-From MJ Require Import Common.Base Lang.Syntax Lang.Meta Lang.Interp C02.Spec C02.Proofs.
+From MJ Require Import Common.Base Lang.Syntax Lang.Meta Lang.Interp C02.Spec C02.Out C02.Proofs.
 
 (* For every program of the core fragment that uses no safe-marking construct (`safe`, autoescape
    blocks) and whose raw template text has none of the four metacharacters - string literals,
-   macros, call blocks, set-blocks, filter blocks, loops, every filter of the fragment incl. `escape`
-   are allowed -, every context whose safe strings (if any) are metacharacter-free, every undefined
+   macros, call blocks, set-blocks, filter blocks, loops, every filter of the fragment incl. `escape` and
+   the safety-aware `replace`, `join`, `format` (printf fragment: text, %%, %s) and `list` are allowed -, every context whose safe strings (if any) are metacharacter-free, every undefined
    mode and every fuel: with auto-escaping on, the output contains none of them. *)
 Theorem escape_sound : forall c fuel body s,
   c_escape c = true -> good_binds (c_root c) = true -> safe_free body = true ->
@@ -91,6 +91,21 @@ Example escape_sound_example :
   exists s, run ex_ctx 30 ex_prog = Ok s /\
     output_of s = [91; 38; 76; 84; 59; 66; 38; 71; 84; 59; 93;  38; 108; 116; 59; 66; 38; 103; 116; 59].
 Proof. split; [reflexivity|]. split; [reflexivity|]. eexists. split; vm_compute; reflexivity. Qed.
+
+
+(* the safety-aware filters: a captured (safe) separator / format string / haystack mixed with unsafe
+   data - `{% set sep %}, {% endset %}{% set f %}[%s]{% endset %}{{ [x, 1]|join(sep) }}{{ f|format(x) }}{{ sep|replace(",", x) }}` *)
+Definition ex_prog2 : list stmt :=
+  [ SSetBlock 105 [SRaw [44; 32]] None; SSetBlock 106 [SRaw [91; 37; 115; 93]] None;
+    SEmit (EFilter F_join (EList [EVar 100; EConst (LInt 1)]) [EVar 105]);
+    SEmit (EFilter F_format (EVar 106) [EVar 100]);
+    SEmit (EFilter F_replace (EVar 105) [EConst (LStr [44]); EVar 100]) ].
+Example escape_sound_example_filters :
+  safe_free ex_prog2 = true /\
+  exists s, run ex_ctx 30 ex_prog2 = Ok s /\
+    output_of s = [38; 108; 116; 59; 98; 38; 103; 116; 59; 44; 32; 49] ++ [91; 38; 108; 116; 59; 98; 38; 103; 116; 59; 93]
+                  ++ [38; 108; 116; 59; 98; 38; 103; 116; 59; 32].
+Proof. split; [reflexivity|]. eexists. split; vm_compute; reflexivity. Qed.
 
 (* the restriction to the safe-marking-free fragment is necessary: x|safe prints the data raw *)
 Example safe_filter_is_outside_the_fragment :
